@@ -133,6 +133,46 @@ def run_impl(case, repo: str, timeout=40):
         shutil.rmtree(root, ignore_errors=True)
 
 
+def load_alone(text: str, repo: str, timeout=40):
+    """What the tree under test makes of ONE yaml config text in a PRISTINE process (a fresh interpreter, a fresh
+    `Config()`, `load_yaml` of a file holding just this text; no parser object is shared with any run under test).
+    -> wire payload ({'kind': 'none' | 'map' | 'nonmap' | 'parse', ...}) or {'kind': 'hang'} / {'kind': 'crash', ...}."""
+    root = os.path.realpath(tempfile.mkdtemp(prefix='c20a-'))
+    try:
+        os.makedirs(os.path.join(root, 'cwd'))
+        os.makedirs(os.path.join(root, 'home'))
+        path = os.path.join(root, 'cwd', 'alone.yaml')
+        with open(path, 'w', encoding='ascii', newline='\n') as fh:
+            fh.write(text)
+        env = {'PATH': os.environ.get('PATH', '/usr/bin:/bin'), 'C20_REPO': repo, 'PYTHONDONTWRITEBYTECODE': '1',
+               'LC_ALL': 'C.UTF-8', 'HOME': os.path.join(root, 'home'), 'C20_ALONE': path, 'PYPYR_SKIP_INIT': '1'}
+        proc = subprocess.Popen([sys.executable, str(CHILD)], cwd=os.path.join(root, 'cwd'), env=env,
+                                stdout=subprocess.PIPE, stderr=subprocess.PIPE, text=True, start_new_session=True)
+        try:
+            out, err = proc.communicate(timeout=timeout)
+        except subprocess.TimeoutExpired:
+            try:
+                os.killpg(proc.pid, signal.SIGKILL)
+            except ProcessLookupError:
+                pass
+            proc.communicate()
+            return {'kind': 'hang'}
+        lines = [ln for ln in out.splitlines() if ln.startswith('{')]
+        if proc.returncode != 0 or not lines:
+            return {'kind': 'crash', 'rc': proc.returncode, 'stderr': canon_path(err[-800:], root)}
+        obs = json.loads(lines[-1])
+        if not str(obs.get('pypyr_file', '')).startswith(repo):
+            return {'kind': 'crash', 'rc': 0, 'stderr': f"child imported pypyr from {obs.get('pypyr_file')}, not {repo}"}
+        return obs['alone']
+    finally:
+        shutil.rmtree(root, ignore_errors=True)
+
+
+def load_alone_many(texts, repo: str, workers=16):
+    with ThreadPoolExecutor(max_workers=workers) as ex:
+        return list(ex.map(lambda t: load_alone(t, repo), texts))
+
+
 def run_many(cases, repo: str, workers=16):
     with ThreadPoolExecutor(max_workers=workers) as ex:
         return list(ex.map(lambda c: run_impl(c, repo), cases))
